@@ -47,17 +47,12 @@ THEOREMS = [
     "OllamaVerif.C08.put_ok_retrievable",
     "OllamaVerif.C08.empty_put_not_retrievable",
     "OllamaVerif.C08.put_frame",
-    "OllamaVerif.C08.link_requires_blob",
     "OllamaVerif.C08.F8zero_link_to_failed_put",
-    "OllamaVerif.C08.link_requires_blob_fixed",
     "OllamaVerif.C08.concurrent_good_writers_safe",
     "OllamaVerif.C08.F9_failing_cowriter_breaks_trust",
     "OllamaVerif.C08.good_writers_from_longer_file_transiently_unsafe",
     "OllamaVerif.C08.F10_chunk_holes_present_with_full_size",
-    "OllamaVerif.C08.F8_relink_same_size_keeps_old",
     "OllamaVerif.C08.resolve_hash_of_file",
-    "OllamaVerif.C08.link_then_resolve_partial",
-    "OllamaVerif.C08.link_then_resolve_fixed",
     "OllamaVerif.C08.history_blobs_valid",
     "OllamaVerif.C08.history_get_trusted",
     "OllamaVerif.C08.linkZ_then_resolve_fixed",
@@ -78,6 +73,12 @@ THEOREMS = [
     "OllamaVerif.C08.stepOp_allTrusted",
     "OllamaVerif.C08.crash_history_all_trusted",
     "OllamaVerif.C08.crash_history_get_trusted",
+    "OllamaVerif.C08.allTrusted_empty",
+    "OllamaVerif.C08.crash_history_present_persists",
+    "OllamaVerif.C08.present_get",
+    "OllamaVerif.C08.crashHist_nonvacuous",
+    "OllamaVerif.C08.size_lie_after_crash_present_wrong_content",
+    "OllamaVerif.C08.undisciplined_put_destroys_linked_blob",
     # round 7: Resolve's read limit, negative sizes, manifests written behind the cache's back
     "OllamaVerif.C08.resolveL_eq_resolve",
     "OllamaVerif.C08.resolveL_oversize_prefix_digest",
@@ -98,8 +99,12 @@ THEOREMS = [
     "OllamaVerif.Tie.C08.read_limits_agree",
     "OllamaVerif.Tie.C08.tree_link_then_resolve_limited",
 ]
-# theorems about the PINNED Link (before fix 834f6be9a): kept as the record of finding F8, not claims about the tree
-HISTORICAL = ["OllamaVerif.C08.link_then_resolve_partial", "OllamaVerif.C08.F8_relink_same_size_keeps_old"]
+# theorems about Link variants the tree no longer has (pinned in-place Link before fix 834f6be9a; temp+rename without the
+# zero-length refusal before fix 892890804): still built and axiom-audited as the record of findings F8 / F8-zero, but not
+# claims about the tree (evidence field `theorems_about_earlier_link_variants`)
+HISTORICAL = ["OllamaVerif.C08.link_requires_blob", "OllamaVerif.C08.link_then_resolve_partial",
+              "OllamaVerif.C08.F8_relink_same_size_keeps_old", "OllamaVerif.C08.link_requires_blob_fixed",
+              "OllamaVerif.C08.link_then_resolve_fixed"]
 OVERLAY = {"server/internal/cache/blob/zz_verif_c08_test.go": "server_internal_cache_blob/zz_verif_c08_test.go"}
 NAMES_OVERLAY = {"server/internal/internal/names/zz_verif_c08_names_test.go": "server_internal_internal_names/zz_verif_c08_names_test.go"}
 PKG = "./server/internal/cache/blob/"
@@ -227,9 +232,9 @@ def coverage_required(ctx):
 def run(ctx):
     variant, ctx.c08_facts = tree_facts(ctx)
     regenerate(ctx, variant)
-    ctx.lean_check(MODULES, THEOREMS)
+    ctx.lean_check(MODULES, THEOREMS + HISTORICAL)
     ctx.coverage["theorems_for_tree_link"] = [t for t in THEOREMS if ".Tie.C08." in t]
-    ctx.coverage["theorems_about_pinned_link_only"] = HISTORICAL
+    ctx.coverage["theorems_about_earlier_link_variants"] = HISTORICAL
     ctx.coverage["link_variant"] = ["pinned (in place)", "repaired (temp+rename)", "repaired + zero-length refusal"][variant]
     facts = ctx.c08_facts
     ctx.coverage["read_limit_facts"] = facts
